@@ -14,7 +14,8 @@ type ReqInfo struct {
 	Provider string // hex
 	Consumer string // hex
 	Service  string
-	Fee      int64
+	Fee      int64 // in stake
+	FeeP     int64 // in the second coin ("point")
 	Super    bool
 	Module   string
 	IssueH   int64
@@ -47,7 +48,7 @@ func NewReqs(r *StepRec) []string {
 
 func reqInfoFrom(id string, cr types.CompactRequest, s *Snapshot) *ReqInfo {
 	ri := &ReqInfo{ID: id, Ctx: hx(cr.RequestContextId), Batch: cr.RequestContextBatchCounter, Provider: hx(cr.Provider),
-		Fee: stakeOf(cr.ServiceFee), IssueH: cr.RequestHeight, ExpH: cr.ExpirationHeight, Status: "pending"}
+		Fee: stakeOf(cr.ServiceFee), FeeP: amtIn(cr.ServiceFee, "point"), IssueH: cr.RequestHeight, ExpH: cr.ExpirationHeight, Status: "pending"}
 	if rc, ok := s.Ctxs[ri.Ctx]; ok {
 		ri.Consumer = hx(rc.Consumer)
 		ri.Service = rc.ServiceName
@@ -115,4 +116,11 @@ func (m *Model) Pending() []*ReqInfo {
 		}
 	}
 	return out
+}
+
+func (ri *ReqInfo) feeIn(denom string) int64 {
+	if denom == "point" {
+		return ri.FeeP
+	}
+	return ri.Fee
 }
